@@ -16,7 +16,10 @@
       COpen       db_manager.go GetUserDB + initUserDB (10 CREATE TABLE, 16 CREATE
                   INDEX, all IF NOT EXISTS, each autocommit) + sqlite.go
                   createDefaultMailboxes (SELECT COUNT; only if the table is
-                  empty: ONE transaction with the 5 INSERTs).  It is the first
+                  empty: on one dedicated connection BEGIN IMMEDIATE, SELECT COUNT
+                  again under the write lock, the 5 INSERTs, COMMIT — raven
+                  c479b34; sequentially the second count is the first one, and a
+                  crash inside the transaction leaves nothing of it).  It is the first
                   use of the store in a process: a LOGIN, or the GetUserDB at the
                   head of the first delivery to that user.
       CDeliver    delivery/storage/storage.go DeliverMessage after GetUserDB:
@@ -92,7 +95,8 @@ Inductive mstep :=
 | MCreateFile                                   (* sql.Open + PRAGMA foreign_keys: an empty file appears *)
 | MSchema (i : nat)                             (* the i-th (0-based) CREATE ... IF NOT EXISTS *)
 | MInsMailbox (name : str) (t : Z)              (* INSERT INTO mailboxes *)
-| MTxDefaults (t1 t2 t3 t4 t5 : Z)              (* BEGIN; 5 x INSERT INTO mailboxes; COMMIT — only issued when the table is empty *)
+| MTxDefaults (t1 t2 t3 t4 t5 : Z)              (* BEGIN IMMEDIATE; SELECT COUNT again; 5 x INSERT INTO mailboxes; COMMIT
+                                                   (raven c479b34) — only issued when the table looked empty *)
 | MInsMessage (want : shape)                    (* INSERT INTO messages *)
 | MInsHeader (msg : Z)                          (* INSERT INTO message_headers *)
 | MInsAddress (msg : Z)                         (* INSERT INTO addresses *)
@@ -488,7 +492,7 @@ Definition labels (d : dstore) (st : mstep) : list str :=
   | MCreateFile => []
   | MSchema i => [nth i SCHEMA_OBJS []]
   | MInsMailbox _ _ => [S_ "I mailboxes"]
-  | MTxDefaults _ _ _ _ _ => L_BEGIN :: repeat (S_ "I mailboxes") 5 ++ [L_COMMIT]
+  | MTxDefaults _ _ _ _ _ => S_ "BEGIN IMMEDIATE" :: repeat (S_ "I mailboxes") 5 ++ [L_COMMIT]
   | MInsMessage _ => [S_ "I messages"]
   | MInsHeader _ => [S_ "I message_headers"]
   | MInsAddress _ => [S_ "I addresses"]
